@@ -1039,6 +1039,27 @@ func vfC05Capacity(s *vfC05Sink) {
 			}
 		}
 	}
+	// name-heap edge family: seven 31-character names, then one more of every length 20..40: the
+	// last name ends before, exactly at and one byte past the end of the 256-byte name heap
+	// (accepted names must be terminated inside the heap, the others refused)
+	for _, sb := range []uint8{2, 0, 3} {
+		for _, parent := range []string{"", "/g"} {
+			for last := 20; last <= 40; last++ {
+				var h []vfOp
+				if parent != "" {
+					h = append(h, vfOp{Op: "mkgroup", Path: parent})
+				}
+				for i := 0; i < 7; i++ {
+					h = append(h, vfOp{Op: "mkgroup", Path: parent + "/" + strings.Repeat(string(rune('a'+i)), 31)})
+				}
+				h = append(h, vfOp{Op: "mkds", Path: parent + "/" + strings.Repeat("z", last), Type: "u8", Dims: []uint64{1}})
+				cfg := fmt.Sprintf("sb%d/name-heap-edge(parent=%q,last=%d)", sb, parent, last)
+				c := vfC05SeqCase(cfg, sb, h, 0)
+				c.name = "capacity " + cfg
+				cases = append(cases, c)
+			}
+		}
+	}
 	// reopened-session family: attributes in compact (3) or dense (12) storage, the session
 	// ended and the file opened again for writing (handles re-acquired: they cache the parsed
 	// header and take their own write paths), then size-changing and same-size overwrites, an
